@@ -157,7 +157,17 @@ func VerifC17_Jobs() {
 			_, runErr = env.Scheduler.ExecuteJob(cctx, "job1", in, nil, contract)
 		} else {
 			requester = caller
-			_, runErr = srv.ExecuteJob(cctx, &schedulertypes.MsgExecuteJob{JobID: "job1", Payload: in, Metadata: c17Meta(caller)})
+			// the transaction may be signed by a fee grantee of the creator (accepted by the
+			// ante decorator); the requester remains the creator
+			meta := c17Meta(caller)
+			if sym.Bool("signed-by-grantee") {
+				other := c17Other
+				if caller.Equals(c17Other) {
+					other = c17Owner
+				}
+				meta.Signers = []string{other.String()}
+			}
+			_, runErr = srv.ExecuteJob(cctx, &schedulertypes.MsgExecuteJob{JobID: "job1", Payload: in, Metadata: meta})
 		}
 		if runErr == nil {
 			commit()
